@@ -1,4 +1,5 @@
-import Poulpy.Lemmas.ScratchCore2
+import Poulpy.Lemmas.ScratchCore4
+import Poulpy.Lemmas.ScratchProg
 /-
 C12 — "Declared scratch size always suffices and scratch contents never matter."
 
@@ -738,5 +739,394 @@ example : ∀ t ∈ [treeCkksEncryptSk .fft64 8 ⟨1, 2, 17⟩, treeCkksShift 8]
   decide
 
 end batch2
+
+/-! ## third batch: the remaining queries (Model/ScratchOps3.lean)
+
+Prepare wrappers, compressed key wrappers, the convolution products, the blind rotation and the circuit
+bootstrapping with their keys, the BDD helpers, `fhe_uint_prepare`, the CKKS products and composites.
+Formulas that were insufficient are stated in their repaired form (docs/fixes/12–18); the `_old_formula_counterexample`s
+keep the witnesses. -/
+
+section batch3
+variable (be : BE) (n : Nat)
+
+/-- every prepare wrapper (`gglwe_prepare`, `ggsw_prepare`, the seven key wrappers: `depth` nested assertions),
+keys made of several matrices, the circuit-bootstrapping key and the BDD key: `vmp_prepare_tmp_bytes` suffices -/
+theorem prepare_wrappers_ok (depth cnt nLwe rank nAtk : Nat) (outer ksGlwe : Bool) (w : Arena) (h : tbPrepare be n ≤ w.available) :
+    (run (treePrepare be n depth) w).isOk = true ∧ (run (treePrepareMany be n cnt outer) w).isOk = true ∧
+    (run (treeCbtKeyPrepare be n nLwe rank nAtk) w).isOk = true ∧ (run (treeBddKeyPrepare be n nLwe rank nAtk ksGlwe) w).isOk = true :=
+  ⟨(prepare_facts be n depth).ok w h, (prepareMany_facts be n cnt outer).ok w h, (cbtKeyPrepare_facts be n nLwe rank nAtk).ok w h,
+   (bddKeyPrepare_facts be n nLwe rank nAtk ksGlwe).ok w h⟩
+
+example : (run (treePrepare .ntt120 8 3) ⟨4100, 60 + tbPrepare .ntt120 8⟩).isOk = true ∧
+    (run (treeBddKeyPrepare .fft64 8 3 2 2 true) ⟨4096, tbPrepare .fft64 8⟩).isOk = true ∧
+    (run (treePrepare .fft64 8 3) ⟨4096, tbPrepare .fft64 8 - 8⟩).isOk = false := by decide
+
+/-- the four compressed key wrappers -/
+theorem compressed_key_wrappers_ok (k : K) (hn : n % 8 = 0) (w : Arena) :
+    (tbSwitchingKeyEncryptSk be n k ≤ w.available → (run (treeSwitchingKeyCompressedEncryptSk be n k) w).isOk = true) ∧
+    (tbAutomorphismKeyEncryptSk be n k ≤ w.available → (run (treeAutomorphismKeyCompressedEncryptSk be n k) w).isOk = true) ∧
+    (tbTensorKeyEncryptSk be n k ≤ w.available → (run (treeTensorKeyCompressedEncryptSk be n k) w).isOk = true) ∧
+    (tbGglweToGgswKeyEncryptSk be n k ≤ w.available → (run (treeGglweToGgswKeyCompressedEncryptSk be n k) w).isOk = true) :=
+  ⟨(switchingKeyCompressed_facts be n k hn).ok w, (automorphismKeyCompressed_facts be n k hn).ok w,
+   (tensorKeyCompressed_facts be n k hn).ok w, (gglweToGgswKeyCompressed_facts be n k hn).ok w⟩
+
+example : (run (treeSwitchingKeyCompressedEncryptSk .fft64 8 ⟨2, 1, 4, 17, 2, 2⟩) ⟨4096, tbSwitchingKeyEncryptSk .fft64 8 ⟨2, 1, 4, 17, 2, 2⟩⟩).isOk = true ∧
+    (run (treeGglweToGgswKeyCompressedEncryptSk .ntt120 8 ⟨2, 2, 3, 17, 1, 2⟩) ⟨4096, tbGglweToGgswKeyEncryptSk .ntt120 8 ⟨2, 2, 3, 17, 1, 2⟩⟩).isOk = true := by
+  decide
+
+/-- `glwe_mul_plain` (repaired formula, docs/fixes/12) for every offset and every effective precision of the operands -/
+theorem glwe_mul_plain_ok (off : Nat) (res a : G) (bSize ea eb : Nat) (hn : n % 8 = 0) (hea : ea ≤ a.size) (heb : eb ≤ bSize)
+    (hoff : cnvHi off a.b2k ≤ ea + eb) (w : Arena) (h : tbGlweMulPlain be n res a bSize ≤ w.available) :
+    (run (treeGlweMulPlain be n off res a bSize ea eb) w).isOk = true :=
+  (mulPlain_facts be n off res a bSize ea eb hn hea heb hoff).ok w h
+
+example : (run (treeGlweMulPlain .fft64 8 0 ⟨1, 1, 17⟩ ⟨1, 3, 17⟩ 3 3 3) ⟨4096, tbGlweMulPlain .fft64 8 ⟨1, 1, 17⟩ ⟨1, 3, 17⟩ 3⟩).isOk = true := by decide
+
+/-- `glwe_mul_plain_assign` -/
+theorem glwe_mul_plain_assign_ok (off : Nat) (res : G) (aSize er ea : Nat) (hn : n % 8 = 0) (her : er ≤ res.size) (hea : ea ≤ aSize)
+    (hoff : cnvHi off res.b2k ≤ ea + er) (w : Arena) (h : tbGlweMulPlain be n res res aSize ≤ w.available) :
+    (run (treeGlweMulPlainAssign be n off res aSize er ea) w).isOk = true :=
+  (mulPlainAssign_facts be n off res aSize er ea hn her hea hoff).ok w h
+
+example : (run (treeGlweMulPlainAssign .ntt120 8 17 ⟨1, 3, 17⟩ 2 3 2) ⟨4096, tbGlweMulPlain .ntt120 8 ⟨1, 3, 17⟩ ⟨1, 3, 17⟩ 2⟩).isOk = true := by decide
+
+/- FULL STATEMENT (false for the formula before docs/fixes/12): the accumulator was bounded by what `res` can hold
+   although the body takes `a + b − cnv_offset_hi` limbs; also at realistic ring degrees. -/
+theorem glwe_mul_plain_old_formula_counterexample :
+    (run (treeGlweMulPlain .fft64 8 0 ⟨1, 1, 17⟩ ⟨1, 3, 17⟩ 3 3 3) ⟨4096, tbGlweMulPlainOld .fft64 8 ⟨1, 1, 17⟩ ⟨1, 3, 17⟩ 3⟩).isOk = false ∧
+    tbGlweMulPlainOld .ntt120 1024 ⟨1, 1, 17⟩ ⟨1, 3, 17⟩ 3 < req (treeGlweMulPlain .ntt120 1024 0 ⟨1, 1, 17⟩ ⟨1, 3, 17⟩ 3 3 3) := by
+  decide
+
+/-- `glwe_tensor_apply` / `glwe_tensor_apply_add_assign` (convolution queries with the accumulator size, docs/fixes/13) -/
+theorem glwe_tensor_apply_ok (off : Nat) (res a : G) (bSize ea eb : Nat) (hn : n % 8 = 0) (hea : ea ≤ a.size) (heb : eb ≤ bSize)
+    (hb : 0 < a.b2k) (hoff : cnvHi off a.b2k ≤ ea + eb) (w : Arena) (h : tbGlweTensorApply be n res a bSize ≤ w.available) :
+    (run (treeGlweTensorApply be n off res a bSize ea eb) w).isOk = true :=
+  (tensorApply_facts be n off res a bSize ea eb hn hea heb hb hoff).ok w h
+
+example : (run (treeGlweTensorApply .fft64 8 19 ⟨1, 5, 19⟩ ⟨1, 3, 19⟩ 4 3 4) ⟨4096, tbGlweTensorApply .fft64 8 ⟨1, 5, 19⟩ ⟨1, 3, 19⟩ 4⟩).isOk = true := by decide
+
+/-- the hypothesis `cnv_offset_hi ≤ ea + eb` is a real (unchecked) precondition of the Rust body: beyond it
+`a_size + b_size − cnv_offset_hi` wraps and the accumulator is sized by the result alone -/
+example : (run (treeGlweTensorApply .ntt120 16 57 ⟨1, 6, 17⟩ ⟨1, 1, 13⟩ 1 1 1) ⟨4096, tbGlweTensorApply .ntt120 16 ⟨1, 6, 17⟩ ⟨1, 1, 13⟩ 1⟩).isOk = false := by
+  decide
+
+/- FULL STATEMENT (false before docs/fixes/13, tiny rings only: the normalisation scratch dominates from N = 32 on) -/
+theorem glwe_tensor_apply_old_formula_counterexample :
+    (run (treeGlweTensorApply .fft64 8 19 ⟨1, 5, 19⟩ ⟨1, 3, 19⟩ 4 3 4) ⟨4096, tbGlweTensorApplyOld .fft64 8 ⟨1, 5, 19⟩ ⟨1, 3, 19⟩ 4⟩).isOk = false := by
+  decide
+
+/-- `glwe_tensor_square_apply` -/
+theorem glwe_tensor_square_apply_ok (off : Nat) (res a : G) (ea : Nat) (hn : n % 8 = 0) (hea : ea ≤ a.size) (hb : 0 < a.b2k)
+    (hoff : cnvHi off a.b2k ≤ 2 * ea) (w : Arena) (h : tbGlweTensorSquare be n res a ≤ w.available) :
+    (run (treeGlweTensorSquare be n off res a ea) w).isOk = true :=
+  (tensorSquare_facts be n off res a ea hn hea hb hoff).ok w h
+
+example : (run (treeGlweTensorSquare .ntt120 8 40 ⟨2, 3, 17⟩ ⟨2, 3, 17⟩ 3) ⟨4096, tbGlweTensorSquare .ntt120 8 ⟨2, 3, 17⟩ ⟨2, 3, 17⟩⟩).isOk = true := by decide
+
+/-- `blind_rotation_execute` (CGGI): standard, block-binary and extended block-binary dispatch -/
+theorem blind_rotation_execute_ok (nLwe block ext : Nat) (res : G) (brk : K) (hn : n % 8 = 0) (hr : res.rank = brk.rankOut)
+    (hb0 : 0 < brk.b2k) (hd : 1 ≤ brk.dsize) (hext : 1 < ext → 1 < block) (hext0 : 1 ≤ ext) (w : Arena)
+    (h : tbBlindRotation be n block ext res brk ≤ w.available) : (run (treeBlindRotation be n nLwe block ext res brk) w).isOk = true :=
+  (blindRotation_facts be n nLwe block ext res brk hn hr hb0 hd hext hext0).ok w h
+
+example : (run (treeBlindRotation .fft64 8 4 2 1 ⟨2, 2, 12⟩ (brkK 2 2 12 2)) ⟨4096, tbBlindRotation .fft64 8 2 1 ⟨2, 2, 12⟩ (brkK 2 2 12 2)⟩).isOk = true ∧
+    (run (treeBlindRotation .ntt120 8 3 1 1 ⟨1, 2, 12⟩ (brkK 1 2 12 2)) ⟨4096, tbBlindRotation .ntt120 8 1 1 ⟨1, 2, 12⟩ (brkK 1 2 12 2)⟩).isOk = true ∧
+    (run (treeBlindRotation .fft64 8 4 2 2 ⟨1, 2, 12⟩ (brkK 1 2 12 2)) ⟨4096, tbBlindRotation .fft64 8 2 2 ⟨1, 2, 12⟩ (brkK 1 2 12 2)⟩).isOk = true := by
+  decide
+
+/- FULL STATEMENT (false before docs/fixes/15 for rank ≥ 2: the `vmp` query was made for 2 columns) -/
+theorem blind_rotation_block_old_formula_counterexample :
+    (run (treeBlindRotation .fft64 8 4 2 1 ⟨2, 2, 12⟩ (brkK 2 2 12 2)) ⟨4096, tbBlindRotationBlockOld .fft64 8 (brkK 2 2 12 2)⟩).isOk = false ∧
+    (run (treeBlindRotation .fft64 16 4 2 1 ⟨3, 3, 12⟩ (brkK 3 3 12 3)) ⟨4096, tbBlindRotationBlockOld .fft64 16 (brkK 3 3 12 3)⟩).isOk = false := by
+  decide
+
+/-- the blind-rotation keys: `n_lwe` GGSW encryptions (plain or compressed) -/
+theorem blind_rotation_key_encrypt_sk_ok (nLwe : Nat) (brk : K) (hn : n % 8 = 0) (w : Arena) (h : tbGgxEncryptSk be n brk.size ≤ w.available) :
+    (run (treeBrkEncryptSk be n nLwe brk) w).isOk = true ∧ (run (treeBrkCompressedEncryptSk be n nLwe brk) w).isOk = true :=
+  ⟨(brkEncryptSk_facts be n nLwe brk hn).ok w h, (brkCompressedEncryptSk_facts be n nLwe brk hn).ok w h⟩
+
+example : (run (treeBrkEncryptSk .fft64 8 3 (brkK 1 2 12 2)) ⟨4096, tbGgxEncryptSk .fft64 8 2⟩).isOk = true := by decide
+
+/-- `circuit_bootstrapping_execute_to_constant` (repaired formula, docs/fixes/17) -/
+theorem circuit_bootstrapping_execute_ok (nLwe block ext iters : Nat) (res : W) (brk atk tsk : K) (hn : n % 8 = 0)
+    (hb0 : 0 < brk.b2k) (hd : 1 ≤ brk.dsize) (hext : 1 < ext → 1 < block) (hext0 : 1 ≤ ext)
+    (hai : res.g.rank = atk.rankIn) (hao : res.g.rank = atk.rankOut) (hti : tsk.rankIn = res.g.rank) (hto : tsk.rankOut = res.g.rank)
+    (w : Arena) (h : tbCbt be n block ext res brk atk tsk ≤ w.available) :
+    (run (treeCbtConstant be n nLwe block ext iters res brk atk tsk) w).isOk = true :=
+  (cbtConstant_facts be n nLwe block ext iters res brk atk tsk hn hb0 hd hext hext0 hai hao hti hto).ok w h
+
+example : (run (treeCbtConstant .ntt120 64 2 1 1 5 ⟨⟨1, 3, 17⟩, 1⟩ (brkK 1 3 19 1) ⟨1, 1, 5, 13, 2, 1⟩ ⟨1, 1, 4, 7, 4, 1⟩)
+    ⟨4096, tbCbt .ntt120 64 1 1 ⟨⟨1, 3, 17⟩, 1⟩ (brkK 1 3 19 1) ⟨1, 1, 5, 13, 2, 1⟩ ⟨1, 1, 4, 7, 4, 1⟩⟩).isOk = true := by decide
+
+/- FULL STATEMENT (false before docs/fixes/17): every phase was queried with the result's layout; with a blind-rotation
+   key more precise than the result the inner assertion of `glwe_trace` fails. -/
+theorem circuit_bootstrapping_old_formula_counterexample :
+    (run (treeCbtConstant .ntt120 64 2 1 1 5 ⟨⟨1, 3, 17⟩, 1⟩ (brkK 1 3 19 1) ⟨1, 1, 5, 13, 2, 1⟩ ⟨1, 1, 4, 7, 4, 1⟩)
+      ⟨4096, tbCbtOld .ntt120 64 1 1 ⟨⟨1, 3, 17⟩, 1⟩ (brkK 1 3 19 1) ⟨1, 1, 5, 13, 2, 1⟩ ⟨1, 1, 4, 7, 4, 1⟩⟩).isOk = false := by
+  decide
+
+/-- the circuit-bootstrapping key and the BDD key (docs/fixes/16: with the term of the optional GLWE→GLWE key) -/
+theorem cbt_and_bdd_key_encrypt_sk_ok (nLwe nAtk : Nat) (brk atk tsk ksLwe : K) (ksGlwe : Option K) (hn : n % 8 = 0)
+    (hr : 1 ≤ ksLwe.rankIn) (w : Arena) :
+    (tbCbtKeyEncryptSk be n brk atk tsk ≤ w.available → (run (treeCbtKeyEncryptSk be n nLwe nAtk brk atk tsk) w).isOk = true) ∧
+    (tbBddKeyEncryptSk be n brk atk tsk ksLwe ksGlwe ≤ w.available →
+      (run (treeBddKeyEncryptSk be n nLwe nAtk brk atk tsk ksLwe ksGlwe) w).isOk = true) :=
+  ⟨(cbtKeyEncryptSk_facts be n nLwe nAtk brk atk tsk hn).ok w, (bddKeyEncryptSk_facts be n nLwe nAtk brk atk tsk ksLwe ksGlwe hn hr).ok w⟩
+
+example : (run (treeBddKeyEncryptSk .fft64 8 2 2 (brkK 1 2 12 1) ⟨1, 1, 2, 11, 1, 1⟩ ⟨1, 1, 2, 10, 1, 1⟩ ⟨1, 1, 2, 4, 1, 1⟩ (some ⟨1, 1, 6, 4, 2, 1⟩))
+    ⟨4096, tbBddKeyEncryptSk .fft64 8 (brkK 1 2 12 1) ⟨1, 1, 2, 11, 1, 1⟩ ⟨1, 1, 2, 10, 1, 1⟩ ⟨1, 1, 2, 4, 1, 1⟩ (some ⟨1, 1, 6, 4, 2, 1⟩)⟩).isOk = true := by
+  decide
+
+/- FULL STATEMENT (false before docs/fixes/16): a GLWE→GLWE key larger than the other keys has no term -/
+theorem bdd_key_old_formula_counterexample :
+    (run (treeBddKeyEncryptSk .fft64 8 2 2 (brkK 1 2 12 1) ⟨1, 1, 2, 11, 1, 1⟩ ⟨1, 1, 2, 10, 1, 1⟩ ⟨1, 1, 2, 4, 1, 1⟩ (some ⟨1, 1, 6, 4, 2, 1⟩))
+      ⟨4096, tbBddKeyEncryptSk .fft64 8 (brkK 1 2 12 1) ⟨1, 1, 2, 11, 1, 1⟩ ⟨1, 1, 2, 10, 1, 1⟩ ⟨1, 1, 2, 4, 1, 1⟩ none⟩).isOk = false := by
+  decide
+
+/-- `fhe_uint_prepare_custom_multi_thread` (docs/fixes/18): `threads` regions of the per-thread size, in each the GGSW,
+the (unaligned) LWE, then bit extraction, circuit bootstrapping and `ggsw_prepare` -/
+theorem fhe_uint_prepare_ok (threads nLwe block iters bitsPer idx : Nat) (res : W) (bits : G) (brk atk tsk ksLwe : K) (ksGlwe : Option K)
+    (hn : n % 8 = 0) (hb0 : 0 < brk.b2k) (hd : 1 ≤ brk.dsize)
+    (hai : res.g.rank = atk.rankIn) (hao : res.g.rank = atk.rankOut) (hti : tsk.rankIn = res.g.rank) (hto : tsk.rankOut = res.g.rank)
+    (hout : ksLwe.rankOut = 1) (hnone : ksGlwe = none → bits.rank = ksLwe.rankIn)
+    (hsome : ∀ kg, ksGlwe = some kg → bits.rank = kg.rankIn ∧ kg.rankOut = 1 ∧ ksLwe.rankIn = 1)
+    (w : Arena) (h : threads * tbFheUintPrepare be n block res bits brk atk tsk ksLwe ksGlwe ≤ w.available) :
+    (run (treeFheUintPrepare be n threads nLwe block iters bitsPer idx res bits brk atk tsk ksLwe ksGlwe) w).isOk = true := by
+  obtain ⟨f1, f2⟩ := fheUintPrepareWorker_req be n nLwe block iters bitsPer idx res bits brk atk tsk ksLwe ksGlwe hn hb0 hd hai hao hti hto
+    hout hnone hsome
+  have hlen : tbFheUintPrepare be n block res bits brk atk tsk ksLwe ksGlwe % 64 = 0 := by
+    unfold tbFheUintPrepare; exact roundUp_mod64 _
+  unfold treeFheUintPrepare
+  apply run_ok
+  · simp only [fits, Bool.and_eq_true, Bool.or_eq_true, decide_eq_true_eq]
+    exact ⟨⟨Or.inr f2, f1⟩, trivial⟩
+  · simp only [req, parNeed_of_aligned hlen, ← parNeed_eq_parReq]
+    omega
+
+example : (run (treeFheUintPrepare .fft64 8 2 2 1 3 2 1 ⟨⟨1, 2, 13⟩, 1⟩ ⟨1, 2, 13⟩ (brkK 1 2 12 1) ⟨1, 1, 2, 11, 1, 1⟩ ⟨1, 1, 2, 10, 1, 1⟩ ⟨1, 1, 2, 4, 1, 1⟩ none)
+    ⟨4104, 56 + 2 * tbFheUintPrepare .fft64 8 1 ⟨⟨1, 2, 13⟩, 1⟩ ⟨1, 2, 13⟩ (brkK 1 2 12 1) ⟨1, 1, 2, 11, 1, 1⟩ ⟨1, 1, 2, 10, 1, 1⟩ ⟨1, 1, 2, 4, 1, 1⟩ none⟩).isOk = true := by
+  decide
+
+/- FULL STATEMENT (false before docs/fixes/18): the per-thread size counted the circuit bootstrapping only; with a small
+   bootstrapping layout the bit extraction (`lwe_from_glwe`) needs more.  Witness reproduced on the real code (docs/C12.md §9). -/
+theorem fhe_uint_prepare_old_formula_counterexample :
+    (run (.par 1 (tbFheUintPrepareOld .fft64 32 2 ⟨⟨1, 2, 13⟩, 1⟩ ⟨1, 2, 13⟩ (brkK 1 2 12 1) ⟨1, 1, 2, 11, 1, 1⟩ ⟨1, 1, 2, 10, 1, 1⟩)
+        (treeFheUintPrepareWorker .fft64 32 2 2 5 2 1 ⟨⟨1, 2, 13⟩, 1⟩ ⟨1, 2, 13⟩ (brkK 1 2 12 1) ⟨1, 1, 2, 11, 1, 1⟩ ⟨1, 1, 2, 10, 1, 1⟩ ⟨1, 1, 2, 4, 2, 1⟩ none) .done)
+      ⟨4096, tbFheUintPrepareOld .fft64 32 2 ⟨⟨1, 2, 13⟩, 1⟩ ⟨1, 2, 13⟩ (brkK 1 2 12 1) ⟨1, 1, 2, 11, 1, 1⟩ ⟨1, 1, 2, 10, 1, 1⟩⟩).isOk = false ∧
+    tbFheUintPrepareOld .fft64 32 2 ⟨⟨1, 2, 13⟩, 1⟩ ⟨1, 2, 13⟩ (brkK 1 2 12 1) ⟨1, 1, 2, 11, 1, 1⟩ ⟨1, 1, 2, 10, 1, 1⟩ = 10496 := by
+  decide
+
+/-- the BDD blind rotations, the blind selection, the stateful blind retrieval and `GLWEBlindRetriever::retrieve`
+(docs/fixes/14: with the difference buffer of `cmux_assign_neg`) -/
+theorem bdd_blind_ops_ok (cells bitMask steps : Nat) (res : G) (k : K) (hn : n % 8 = 0)
+    (hres : res.rank = k.rankOut) (hb : res.b2k = k.b2k) (hb0 : 0 < k.b2k) (hd : 1 ≤ k.dsize) (w : Arena) :
+    (tbGlweBlindRotation be n res k ≤ w.available → (run (treeGlweBlindRotation be n bitMask res k) w).isOk = true) ∧
+    (tbGlweBlindRotation be n res k ≤ w.available → (run (treeGgswBlindRotation be n cells bitMask res k) w).isOk = true) ∧
+    (tbScalarToGgswBlindRotation be n res k ≤ w.available → (run (treeScalarToGgswBlindRotation be n cells bitMask res k) w).isOk = true) ∧
+    (tbGlweBlindRotation be n res k ≤ w.available → (run (treeGlweBlindSelection be n steps res k) w).isOk = true) ∧
+    (tbCswap be n res res k ≤ w.available → (run (treeGlweBlindRetrieval be n steps res k) w).isOk = true) ∧
+    (tbRetrieve be n res k ≤ w.available → (run (treeRetrieve be n steps res k) w).isOk = true) :=
+  ⟨(glweBlindRotation_facts be n bitMask res k hn hres hb hb0 hd).ok w, (ggswBlindRotation_facts be n cells bitMask res k hn hres hb hb0 hd).ok w,
+   (scalarToGgswBlindRotation_facts be n cells bitMask res k hn hres hb hb0 hd).ok w, (glweBlindSelection_facts be n steps res k hn hres hb hb0 hd).ok w,
+   (glweBlindRetrieval_facts be n steps res k hn hb hb0 hd).ok w, (retrieve_facts be n steps res k hn hres hb hb0 hd).ok w⟩
+
+example : (run (treeScalarToGgswBlindRotation .fft64 16 4 3 ⟨1, 3, 17⟩ ⟨1, 1, 3, 17, 3, 1⟩) ⟨4096, tbScalarToGgswBlindRotation .fft64 16 ⟨1, 3, 17⟩ ⟨1, 1, 3, 17, 3, 1⟩⟩).isOk = true ∧
+    (run (treeRetrieve .fft64 16 2 ⟨1, 3, 17⟩ ⟨1, 1, 3, 17, 3, 1⟩) ⟨4096, tbRetrieve .fft64 16 ⟨1, 3, 17⟩ ⟨1, 1, 3, 17, 3, 1⟩⟩).isOk = true := by decide
+
+/- FULL STATEMENT (false before docs/fixes/14): `retrieve_tmp_bytes` was `cmux_tmp_bytes`, `cmux_assign_neg` takes a GLWE more -/
+theorem retrieve_old_formula_counterexample :
+    (run (treeRetrieve .fft64 16 2 ⟨1, 3, 17⟩ ⟨1, 1, 3, 17, 3, 1⟩) ⟨4096, tbCmux .fft64 16 ⟨1, 3, 17⟩ ⟨1, 1, 3, 17, 3, 1⟩⟩).isOk = false := by
+  decide
+
+/-- the two-word circuits (`execute_bdd_circuit_2w_to_1w(_multi_thread)`) and `FheUint::encrypt_sk` / `decrypt` -/
+theorem bdd_2w_to_1w_and_fhe_uint_ok (threads bits state rounds iters : Nat) (res : G) (k atk : K) (hn : n % 8 = 0)
+    (hres : res.rank = k.rankOut) (hb : res.b2k = k.b2k) (hb0 : 0 < k.b2k) (hd : 1 ≤ k.dsize)
+    (hai : res.rank = atk.rankIn) (hao : res.rank = atk.rankOut) (w : Arena) :
+    (tbBdd2w1w be n threads bits state res k atk ≤ w.available → (run (treeBdd2w1w be n threads bits state rounds iters res k atk) w).isOk = true) ∧
+    (tbFheUintEncryptSk be n res ≤ w.available → (run (treeFheUintEncryptSk be n res) w).isOk = true) ∧
+    (tbFheUintDecrypt be n res ≤ w.available → (run (treeFheUintDecrypt be n res) w).isOk = true) :=
+  ⟨(bdd2w1w_facts be n threads bits state rounds iters res k atk hn hres hb hb0 hd hai hao).ok w,
+   (fheUintEncryptSk_facts be n res hn).ok w, (fheUintDecrypt_facts be n res hn).ok w⟩
+
+example : (run (treeBdd2w1w .fft64 8 2 4 3 2 2 ⟨1, 2, 17⟩ ⟨1, 1, 3, 17, 2, 1⟩ ⟨1, 1, 3, 17, 2, 1⟩)
+    ⟨4096, tbBdd2w1w .fft64 8 2 4 3 ⟨1, 2, 17⟩ ⟨1, 1, 3, 17, 2, 1⟩ ⟨1, 1, 3, 17, 2, 1⟩⟩).isOk = true := by decide
+
+/-- the CKKS products: `ckks_mul`, `ckks_square`, `ckks_mul_pt_vec_rnx` (`_znx` is `glwe_mul_plain`), `ckks_mul_pt_const` -/
+theorem ckks_products_ok (off ea eb : Nat) (ct a : G) (t : K) (ptSize : Nat) (hn : n % 8 = 0)
+    (hea : ea ≤ ct.size) (heb : eb ≤ ct.size) (hb : 0 < ct.b2k) (hea' : ea ≤ a.size)
+    (hoff : cnvHi off ct.b2k ≤ ea + eb) (hoff2 : cnvHi off ct.b2k ≤ 2 * ea) (hoff3 : cnvHi off a.b2k ≤ ea + ptSize) (w : Arena) :
+    (tbCkksMul be n ct t ≤ w.available → (run (treeCkksMul be n off ea eb ct t) w).isOk = true) ∧
+    (tbCkksSquare be n ct t ≤ w.available → (run (treeCkksSquare be n off ea ct t) w).isOk = true) ∧
+    (tbCkksMulPtVecRnx be n ct a ptSize ≤ w.available → (run (treeCkksMulPtVecRnx be n off ct a ptSize ea) w).isOk = true) ∧
+    (tbCkksMulPtConst be n ct a ptSize ≤ w.available → (run (treeCkksMulPtConst be n off ct a ptSize) w).isOk = true) :=
+  ⟨(ckksMul_facts be n off ea eb ct t hn hea heb hb hoff).ok w, (ckksSquare_facts be n off ea ct t hn hea hb hoff2).ok w,
+   (ckksMulPtVecRnx_facts be n off ct a ptSize ea hn hea' hoff3).ok w, (ckksMulPtConst_facts be n off ct a ptSize hn).ok w⟩
+
+example : (run (treeCkksMul .fft64 8 57 3 3 ⟨1, 3, 19⟩ ⟨1, 1, 3, 19, 3, 1⟩) ⟨4096, tbCkksMul .fft64 8 ⟨1, 3, 19⟩ ⟨1, 1, 3, 19, 3, 1⟩⟩).isOk = true := by decide
+
+/-- every composite of the form `GLWE::bytes_of(res) + X.max(ckks_add_tmp_bytes)` — `ckks_mul_add_*`, `ckks_mul_sub_*`,
+`ckks_dot_product_pt_*` — runs whenever its product `X` does -/
+theorem ckks_composite_ok (res : G) (tx : AllocTree) (x : Nat) (hn : n % 8 = 0) (hx : Facts tx x) (w : Arena)
+    (h : tbCkksComposite n res x ≤ w.available) : (run (treeCkksComposite n res tx) w).isOk = true :=
+  (ckksComposite_facts res hn hx).ok w h
+
+example : (run (treeCkksComposite 8 ⟨1, 3, 19⟩ (treeCkksMul .fft64 8 57 3 3 ⟨1, 3, 19⟩ ⟨1, 1, 3, 19, 3, 1⟩))
+    ⟨4096, tbCkksComposite 8 ⟨1, 3, 19⟩ (tbCkksMul .fft64 8 ⟨1, 3, 19⟩ ⟨1, 1, 3, 19, 3, 1⟩)⟩).isOk = true := by decide
+
+/-- `ckks_mul_many` (`levels ≤ ceil_log2(cnt)` levels of halving) and `ckks_dot_product_ct` (fast path) -/
+theorem ckks_many_ok (off ea eb cnt levels : Nat) (ct : G) (t : K) (hn : n % 8 = 0)
+    (hea : ea ≤ ct.size) (heb : eb ≤ ct.size) (hb : 0 < ct.b2k) (hoff : cnvHi off ct.b2k ≤ ea + eb)
+    (hl : 2 < cnt ∧ levels ≤ ceilLog2 cnt ∨ levels = 0) (w : Arena) :
+    (tbCkksMulMany be n cnt ct t ≤ w.available → (run (treeCkksMulMany be n off ea eb ct t levels) w).isOk = true) ∧
+    (tbCkksDotProductCt be n cnt ct t ≤ w.available → (run (treeCkksDotProductCt be n off ea eb cnt ct t) w).isOk = true) := by
+  refine ⟨fun h => ?_, (ckksDotProductCt_facts be n off ea eb cnt ct t hn hea heb hb hoff).ok w⟩
+  refine ((ckksMulMany_facts be n off ea eb ct t hn hea heb hb hoff levels).mono ?_).ok w h
+  unfold tbCkksMulMany
+  rcases hl with ⟨h2, hlv⟩ | rfl
+  · rw [if_neg (by omega)]
+    have : 2 * levels * ct.bytes n ≤ 2 * ceilLog2 cnt * ct.bytes n := Nat.mul_le_mul_right _ (Nat.mul_le_mul_left 2 hlv)
+    omega
+  · split <;> omega
+
+example : (run (treeCkksMulMany .fft64 8 57 3 3 ⟨1, 3, 19⟩ ⟨1, 1, 3, 19, 3, 1⟩ 2) ⟨4096, tbCkksMulMany .fft64 8 4 ⟨1, 3, 19⟩ ⟨1, 1, 3, 19, 3, 1⟩⟩).isOk = true ∧
+    (run (treeCkksDotProductCt .fft64 8 57 3 3 3 ⟨1, 3, 19⟩ ⟨1, 1, 3, 19, 3, 1⟩) ⟨4096, tbCkksDotProductCt .fft64 8 3 ⟨1, 3, 19⟩ ⟨1, 1, 3, 19, 3, 1⟩⟩).isOk = true := by
+  decide
+
+/-- `ckks_all_ops_tmp_bytes` / `ckks_all_ops_with_atk_tmp_bytes` dominate every query they are the maximum of: a scratch of
+that size serves each listed operation (with the sufficiency theorem of that operation) -/
+theorem ckks_all_ops_dominates (ct : G) (t atk : K) (ptSize : Nat) :
+    (∀ x ∈ [tbCkksEncryptSk be n ct.size, tbCkksDecrypt be n ct.size, tbCkksShiftNorm n, tbCkksPtVecZnx n, tbCkksPtVecRnx n ptSize,
+        tbCkksShift n, tbCkksMul be n ct t, tbCkksSquare be n ct t, tbCkksMulPtVecZnx be n ct ct ptSize, tbCkksMulPtVecRnx be n ct ct ptSize,
+        tbCkksMulPtConst be n ct ct ptSize, tbPrepare be n, tbTensorKeyEncryptSk be n t], x ≤ tbCkksAllOps be n ct t ptSize) ∧
+    (∀ x ∈ [tbCkksAllOps be n ct t ptSize, tbCkksRotate be n ct atk, tbAutomorphismKeyEncryptSk be n atk, tbPrepare be n],
+        x ≤ tbCkksAllOpsAtk be n ct t atk ptSize) :=
+  ⟨(le_foldl_max _ 0).2, (le_foldl_max _ 0).2⟩
+
+example : tbCkksMul .fft64 8 ⟨1, 3, 19⟩ ⟨1, 1, 3, 19, 3, 1⟩ ≤ tbCkksAllOps .fft64 8 ⟨1, 3, 19⟩ ⟨1, 1, 3, 19, 3, 1⟩ 2 ∧
+    0 < tbCkksAllOps .fft64 8 ⟨1, 3, 19⟩ ⟨1, 1, 3, 19, 3, 1⟩ 2 := by decide
+
+end batch3
+
+/-! ## "scratch contents never matter", as far as a model can carry it
+
+The numeric models of the operations are pure functions with no scratch argument.  The refinement that
+justifies this: an operation's use of its scratch is a `ScratchProg.Prog` (reads and writes of the cells of
+its window, a take returning whatever was there); if every read of a cell is preceded by a write of it
+(`WBR []`), the result does not depend on the initial contents.  Proved once, instantiated for the
+operations whose footprint is structurally evident; the two-fill runs of ./check remain the tie to the
+implementation (they found the one real violation of this half, the un-zeroed `res_dft`, repaired in d3c2e96). -/
+
+section contents
+open ScratchProg
+
+/-- **Write before read ⇒ the result is independent of the initial scratch contents.** -/
+theorem write_before_read_independent {Val α : Type} (p : Prog Val α) (h : WBR [] p) (m m' : Nat → Val) :
+    (run p m).1 = (run p m').1 :=
+  ScratchProg.write_before_read_independent p h m m'
+
+example : (run (Prog.write 3 (5 : Int) (Prog.read 3 (fun v => Prog.ret (v + 1)))) (fun _ => 0)).1 = 6 ∧
+          (run (Prog.write 3 (5 : Int) (Prog.read 3 (fun v => Prog.ret (v + 1)))) (fun _ => 99)).1 = 6 := by decide
+
+/-- the hypothesis is needed: a program that reads a cell it has not written returns what the scratch held
+(this is the shape of the repaired `res_dft` defect: accumulate into a limb never written) -/
+theorem read_before_write_dependent :
+    ¬ (∀ (p : Prog Int Int) (m m' : Nat → Int), (run p m).1 = (run p m').1) := by
+  intro h
+  have := h (Prog.read 0 (fun v => Prog.write 0 (v + 1) (Prog.ret v))) (fun _ => 0) (fun _ => 1)
+  revert this; decide
+
+/-- sequencing and loops preserve write-before-read (how the instances below are built) -/
+theorem wbr_compositional {Val α β : Type} (p : Prog Val α) (f : α → Prog Val β) (W : List Nat)
+    (hp : WBR W p) (hf : ∀ a W', (∀ c, c ∈ W → c ∈ W') → WBR W' (f a)) : WBR W (p.bind f) :=
+  WBR_bind p f W hp hf
+
+example : WBR [] ((Prog.write 0 (1 : Int) (Prog.ret ())).bind (fun _ => Prog.read 0 (fun v => Prog.ret v))) := by
+  simp [Prog.bind, WBR]
+
+/-- a whole-buffer kernel `dst := f(src)` with initialised sources initialises its destination
+(`vec_znx_dft_apply`, `zero`, `copy`, `normalize` into a temporary taken from scratch) -/
+theorem kernel_initialises_destination {Val α : Type} (src dst : List Nat) (f : List Val → List Val) (k : Prog Val α) (W : List Nat)
+    (hs : ∀ c, c ∈ src → c ∈ W) (hf : ∀ vs, (f vs).length = dst.length) (hk : WBR (dst.reverse ++ W) k) :
+    WBR W (kernel src dst f k) :=
+  WBR_kernel src dst f k W hs hf hk
+
+example : WBR [] (kernel [] [0, 1] (fun _ => [(4 : Int), 5]) (kernel [0, 1] [2] (fun vs => [vs.sum]) (Prog.read 2 (fun v => Prog.ret v)))) := by
+  refine WBR_kernel _ _ _ _ _ (by simp) (by simp) (WBR_kernel _ _ _ _ _ (by simp) (by simp) ?_)
+  simp [WBR]
+
+/-- `vec_znx_rotate_assign`, `vec_znx_automorphism_assign`, `vec_znx_mul_xp_minus_one_assign`,
+`vec_znx_big_automorphism_assign`: the one-limb temporary is a copy of the limb before it is read -/
+theorem assign_via_tmp_scratch_independent {Val : Type} (size : Nat) (limb : Nat → Val) (g : Val → Val) (m m' : Nat → Val) :
+    (run (progAssignViaTmp size limb g) m).1 = (run (progAssignViaTmp size limb g) m').1 :=
+  write_before_read_independent _ (wbr_assignViaTmp size limb g) m m'
+
+example : (run (progAssignViaTmp 3 (fun i => (10 * i : Int)) (· + 1)) (fun _ => 777)).1 = [1, 11, 21] := by decide
+
+/-- `vec_znx_normalize_assign` (and every normalisation whose first step writes the carry buffer) -/
+theorem normalize_assign_scratch_independent {Val : Type} (limbs : List Val) (first : Val → Val × Val) (step : Val → Val → Val × Val)
+    (m m' : Nat → Val) :
+    (run (progNormalizeAssign limbs first step) m).1 = (run (progNormalizeAssign limbs first step) m').1 :=
+  write_before_read_independent _ (wbr_normalizeAssign limbs first step) m m'
+
+example : (run (progNormalizeAssign [(7 : Int), 9, 12] (fun l => (l % 8, l / 8)) (fun l c => ((l + c) % 8, (l + c) / 8))) (fun _ => 123)).1 = [0, 2, 4] := by
+  decide
+
+/-- `glwe_decrypt`: `c0_big` is filled with zero, `ci_dft` is written by `vec_znx_dft_apply`, the carry buffer by
+the first normalisation step — for every rank and whatever the kernels compute -/
+theorem glwe_decrypt_scratch_independent {Val : Type} (rank : Nat) (zero : Val) (dftCol : Nat → Val) (svp : Nat → Val → Val)
+    (acc : Val → Val → Val) (addSmall : Val → Val) (normFirst : Val → Val × Val) (normRest : Val → Val → Val) (m m' : Nat → Val) :
+    (run (progGlweDecrypt rank zero dftCol svp acc addSmall normFirst normRest) m).1 =
+    (run (progGlweDecrypt rank zero dftCol svp acc addSmall normFirst normRest) m').1 :=
+  write_before_read_independent _ (wbr_glweDecrypt rank zero dftCol svp acc addSmall normFirst normRest) m m'
+
+example : (run (progGlweDecrypt 2 (0 : Int) (fun i => i + 1) (fun i d => (i + 2) * d) (· + ·) (· + 100) (fun c => (c % 10, c / 10)) (· + ·))
+    (fun _ => 55)).1 = 18 := by decide
+
+/-- `glwe_encrypt_sk` / `glwe_encrypt_zero_sk` / the rows of `gglwe_encrypt_sk`, `ggsw_encrypt_sk` -/
+theorem glwe_encrypt_sk_scratch_independent {Val : Type} (cols : Nat) (zero : Val) (dftCol : Nat → Val) (svp : Nat → Val → Val)
+    (bigNorm : Val → Val × Val) (fin : Val → Val → Val) (sub : Val → Val → Val) (addNoise : Val → Val)
+    (normFirst : Val → Val × Val) (normRest : Val → Val → Val) (m m' : Nat → Val) :
+    (run (progEncSkInternal cols zero dftCol svp bigNorm fin sub addNoise normFirst normRest) m).1 =
+    (run (progEncSkInternal cols zero dftCol svp bigNorm fin sub addNoise normFirst normRest) m').1 :=
+  write_before_read_independent _ (wbr_encSkInternal cols zero dftCol svp bigNorm fin sub addNoise normFirst normRest) m m'
+
+example : (run (progEncSkInternal 3 (0 : Int) (fun i => i + 1) (fun _ d => 2 * d) (fun d => (d, 1)) (· + ·) (· - ·) (· + 7)
+    (fun c => (c, 0)) (· + ·)) (fun _ => -5)).1 = -1 := by decide
+
+/-- `glwe_keyswitch` (same radix, `dsize = 1`): `res_dft.zero()`, `a_dft` from `vec_znx_dft_apply`, the vmp buffer and
+the carry buffer written before use -/
+theorem glwe_keyswitch_scratch_independent {Val : Type} (cols : Nat) (zero aDft : Val) (vmpTmp : Val → Val) (vmp : Val → Val → Val)
+    (addSmall : Val → Val) (normFirst : Nat → Val → Val × Val) (normRest : Val → Val → Val) (m m' : Nat → Val) :
+    (run (progKeyswitch cols zero aDft vmpTmp vmp addSmall normFirst normRest) m).1 =
+    (run (progKeyswitch cols zero aDft vmpTmp vmp addSmall normFirst normRest) m').1 :=
+  write_before_read_independent _ (wbr_keyswitch cols zero aDft vmpTmp vmp addSmall normFirst normRest) m m'
+
+example : (run (progKeyswitch 2 (0 : Int) 3 (· * 2) (· + ·) (· + 1) (fun j r => (r + j, j)) (· * ·)) (fun _ => 42)).1 = [0, 11] := by decide
+
+/-- `glwe_mul_plain` / `glwe_tensor_apply`: the prepared operands, the preparation temporary, the accumulator, the
+convolution buffer and the carry are all written before they are read -/
+theorem cnv_product_scratch_independent {Val : Type} (cols : Nat) (tmpA tmpB : Val) (prepL prepR : Val → Val) (cnvTmp : Val → Val → Val)
+    (cnv : Nat → Val → Val → Val → Val) (normFirst : Val → Val × Val) (normRest : Val → Val → Val) (m m' : Nat → Val) :
+    (run (progCnvProduct cols tmpA tmpB prepL prepR cnvTmp cnv normFirst normRest) m).1 =
+    (run (progCnvProduct cols tmpA tmpB prepL prepR cnvTmp cnv normFirst normRest) m').1 :=
+  write_before_read_independent _ (wbr_cnvProduct cols tmpA tmpB prepL prepR cnvTmp cnv normFirst normRest) m m'
+
+example : (run (progCnvProduct 2 (2 : Int) 3 (· + 1) (· * 2) (· + ·) (fun j a b t => a * b + t + j) (fun r => (r, 1)) (· + ·)) (fun _ => 99)).1 = [28, 29] := by
+  decide
+
+/-- block-binary blind rotation, one block (`acc_dft` from the DFT of the accumulator, `acc_add_dft` zeroed, the product,
+`svp` and inverse-DFT buffers written by their kernels) -/
+theorem blind_rotation_block_scratch_independent {Val : Type} (block : Nat) (accDft zero : Val) (vmpTmp : Nat → Val → Val)
+    (vmp : Nat → Val → Val → Val) (svp : Nat → Val → Val) (upd : Val → Val → Val → Val) (idft : Val → Val) (addSmall : Val → Val)
+    (normFirst : Val → Val × Val) (normRest : Val → Val → Val) (m m' : Nat → Val) :
+    (run (progBlindRotationBlock block accDft zero vmpTmp vmp svp upd idft addSmall normFirst normRest) m).1 =
+    (run (progBlindRotationBlock block accDft zero vmpTmp vmp svp upd idft addSmall normFirst normRest) m').1 :=
+  write_before_read_independent _ (wbr_blindRotationBlock block accDft zero vmpTmp vmp svp upd idft addSmall normFirst normRest) m m'
+
+example : (run (progBlindRotationBlock 2 (5 : Int) 0 (fun i a => a + i) (fun _ a t => a * t) (fun i r => r - i) (fun s x r => s + x - r)
+    (· * 2) (· + 1) (fun b => (b, 7)) (· + ·)) (fun _ => 1234)).1 = 6 := by decide
+
+end contents
 
 end C12
